@@ -313,6 +313,10 @@ func c17Generate(c *Ctx, m *Module) {
 		}
 	}
 	r.Check("C17.comparator-family", "comparison sites enumerated", "-", n >= 4, fmt.Sprintf("%d", n))
+	// ownership of the proxy listing: generate filters the listed versions IN PLACE, so every
+	// listing it receives must be a fresh slice no other program's listing can alias.
+	c17FreshListing(c, m)
+
 	// padVersions (semver only) is called only for non-toolchain programs
 	pad := m.Func("internal/configgen", "padVersions")
 	for _, cs := range m.callersOf(pad) {
@@ -503,4 +507,80 @@ func appendSortedBeforeReturn(fn *ssa.Function, app *ssa.Call) bool {
 		}
 	}
 	return false
+}
+
+// c17FreshListing: when generate writes into the slice returned by listProxyVersions, each
+// non-test return of listProxyVersions must be freshly allocated and must not be retained.
+func c17FreshListing(c *Ctx, m *Module) {
+	r := c.R
+	gen := m.Func("internal/configgen", "generate")
+	lpv := m.Func("internal/configgen", "listProxyVersions")
+	mutates := false
+	for _, in := range instrsOf(gen) {
+		st, ok := in.(*ssa.Store)
+		if !ok {
+			continue
+		}
+		if ia, ok := st.Addr.(*ssa.IndexAddr); ok && strings.Contains(describe(ia.X), "internal/configgen.listProxyVersions(") {
+			mutates = true
+		}
+	}
+	r.Check("C17.generate-shape", "generate/in-place filtering of the proxy listing recognised", m.Pos(gen.Pos()), true, fmt.Sprintf("generate writes into the listed slice: %v", mutates))
+	if !mutates {
+		return
+	}
+	fresh := func(v ssa.Value) (bool, string) {
+		d := describe(v)
+		switch {
+		case isNilConst(v):
+			return true, "nil"
+		case strings.HasPrefix(d, "slices.Clone(") || strings.HasPrefix(d, "slices.Clone[") || strings.HasPrefix(d, "builtin:append(nil"):
+			return true, "copied"
+		case strings.Contains(d, "global:internal/configgen.versionsForTesting"):
+			return true, "test hook versionsForTesting (tabled: set only by tests, never in the generator binary)"
+		case strings.Contains(d, "global:"):
+			return false, "derives from a package-level variable: " + shortDesc(d)
+		case strings.Contains(d, "strings.Fields(") || strings.Contains(d, "strings.Split(") || strings.Contains(d, "slices.Clone(") || strings.Contains(d, "builtin:append(nil"):
+			return true, "freshly allocated"
+		}
+		return false, "not recognisably fresh: " + shortDesc(d)
+	}
+	n := 0
+	returned := map[string]bool{}
+	for _, b := range lpv.Blocks {
+		ret, ok := b.Instrs[len(b.Instrs)-1].(*ssa.Return)
+		if !ok || len(ret.Results) == 0 {
+			continue
+		}
+		vals := []ssa.Value{ret.Results[0]}
+		if phi, ok := ret.Results[0].(*ssa.Phi); ok {
+			vals = phi.Edges
+		}
+		for _, v := range vals {
+			n++
+			returned[describe(v)] = true
+			ok, why := fresh(v)
+			r.Check("C17.generate-shape", fmt.Sprintf("listProxyVersions/return #%d is a fresh slice", n), m.Pos(ret.Pos()), ok,
+				"generate filters the listing in place, so a shared or cached slice would be truncated for the next program: "+why)
+		}
+	}
+	// ... and is not retained in package state
+	for _, in := range instrsOf(lpv) {
+		var stored, where ssa.Value
+		switch x := in.(type) {
+		case *ssa.MapUpdate:
+			stored, where = x.Value, x.Map
+		case *ssa.Store:
+			stored, where = x.Val, x.Addr
+		default:
+			continue
+		}
+		if _, isSlice := stored.Type().Underlying().(*types.Slice); !isSlice {
+			continue
+		}
+		if strings.Contains(describe(where), "global:") && returned[describe(stored)] {
+			r.Check("C17.generate-shape", "listProxyVersions/listing retained in "+shortDesc(describe(where)), m.Pos(in.Pos()), false,
+				"a listing that generate filters in place must not be kept in package state")
+		}
+	}
 }
